@@ -1,6 +1,6 @@
 from propconf import CHECKS  # noqa: F401  (per-property MANIFEST entries live in tools/props/Cxx.py)
 
-HOOK_COMMITS = ["278b705"]
+HOOK_COMMITS = ["278b705", "161cb4f"]
 
 # properties not claimed, with the reason (none planned: every property has an executable model)
 NOT_APPLICABLE = {}
